@@ -220,6 +220,20 @@ def replay(verdict, exe, res, aspects, seed=0, tag="api", pol=None, sigprefix="a
                     norm.append((k, o, v))
                 if [(k, o) for k, o, _ in want_cb] != [(k, o) for k, o, _ in norm]:
                     diffs.append(("cb", "pre-set validation callback log expected %s observed %s" % (want_cb, norm)))
+                else:
+                    # the callback is handed exactly the value the caller passed
+                    for (k, o, wv), (_, _, gv0) in zip(want_cb, got_cb):
+                        if wv == NULL:
+                            same = gv0 is None
+                        elif isinstance(gv0, str) and gv0.startswith(("0x", "-0x")):
+                            try:
+                                same = float(wv) == float.fromhex(gv0)
+                            except ValueError:
+                                same = False
+                        else:
+                            same = gv0 == wv
+                        if not same:
+                            diffs.append(("cb", "pre-set validation callback of %s was handed %r, the call passed %r" % (o, gv0, wv)))
             if "freed" in aspects:
                 wantf = sorted(exp["freed"])
                 gotf = sorted("ptr%d" % x["id"] for x in line["cb"] if x["k"] == "free")
